@@ -65,7 +65,7 @@ CLAIMS = {
    text='Theorems C11_session_framing and C11_pieces_are_whole_entries (Coq, closed): for every history of session operations - incl. channel replacement, writer actions inside consume and every reads-from choice - every single out.write of consume / reconsumeMetadata is a whole number of entries; the channel part is a list of batches, each a writer description with that channel\'s id and name and batchSize = byte length of the one or two pieces that follow; bytes reported = bytes written. Built on C01 (pieces are runs of whole commits). Tied by write-by-write differential runs of the real Session/SessionWriter headers and by the framing oracle on the implementation.',
    note=NOTE_COMMON + 'the stand-ins of harness/drv_session.cpp (atomic, mutex, shared_ptr with libstdc++ orders, fence); the session model keeps one source id per statement site; per-channel delivery is C01.', design='4/C11', technique='Coq invariant proof over the session model layered on the C01 queue refinement; differential correspondence with in-consume interleaving hooks'),
  'C02': dict(
-   text='Theorems C02_channels_refine_fifo (every channel of every reachable session state satisfies the C01 invariant, so every poll delivers exactly-once/in-order per channel), C02_closed_channel_drained (with the acquire fence after the closed test, the poll of a channel found closed delivers everything ever committed to it: removal loses nothing) C02_no_event_lost_at_removal (for EVERY history and EVERY schedule of lock-free writer actions inside the next consume, each channel that consume removes has released offset = committed length: no accepted event leaves the session undelivered), C02_timely_delivery (a consume during which no writer acts and which sees the writers\' last commits leaves nothing undelivered in any channel) and C02_removal_without_fence_refuted (the same model without the fence loses an accepted event - the D7 finding, fixed) - Coq, closed. C02_channels_polled_in_creation_order + C02_replacement_channel_is_last: in every reachable state the channels are listed (hence polled) in creation order and a replacement channel is created last. C02_abandoned_queue_drained_by_next_consume + C02_abandoned_queue_gone_after_next_consume (Session/SessionReplace.v): for every history and every schedule of writer actions inside the consume, a channel that is closed when a consume starts (abandoned for a larger queue, or its writer destroyed) is found closed, marked at its own position in the polling order, has handed out every committed byte when the channel loop ends, and its uid is not in the session afterwards. C02_consume_writes_channels_in_creation_order (Session/SessionPieces.v): the output of one consume is metadata ++ the concatenation of one piece per polled channel, the uids of the pieces strictly increase and piece j belongs to position j of the channel list. C02_abandoned_queue_never_written_again (Session/SessionGone.v): after any further operations, no later consume writes a piece for a channel that was closed before an earlier consume. PARTIAL: the assembly of these statements into one sentence about one writer\'s events in the concatenation of all consume outputs is not a single theorem (the model has no per-byte writer attribution); it is checked on the implementation by the exactly-once/in-order oracle.',
+   text='Theorems C02_channels_refine_fifo (every channel of every reachable session state satisfies the C01 invariant, so every poll delivers exactly-once/in-order per channel), C02_closed_channel_drained (with the acquire fence after the closed test, the poll of a channel found closed delivers everything ever committed to it: removal loses nothing) C02_no_event_lost_at_removal (for EVERY history and EVERY schedule of lock-free writer actions inside the next consume, each channel that consume removes has released offset = committed length: no accepted event leaves the session undelivered), C02_timely_delivery (a consume during which no writer acts and which sees the writers\' last commits leaves nothing undelivered in any channel) and C02_removal_without_fence_refuted (the same model without the fence loses an accepted event - the D7 finding, fixed) - Coq, closed. C02_channels_polled_in_creation_order + C02_replacement_channel_is_last: in every reachable state the channels are listed (hence polled) in creation order and a replacement channel is created last. C02_abandoned_queue_drained_by_next_consume + C02_abandoned_queue_gone_after_next_consume (Session/SessionReplace.v): for every history and every schedule of writer actions inside the consume, a channel that is closed when a consume starts (abandoned for a larger queue, or its writer destroyed) is found closed, marked at its own position in the polling order, has handed out every committed byte when the channel loop ends, and its uid is not in the session afterwards. C02_consume_writes_channels_in_creation_order (Session/SessionPieces.v): the output of one consume is metadata ++ the concatenation of one piece per polled channel, the uids of the pieces strictly increase and piece j belongs to position j of the channel list. C02_abandoned_queue_never_written_again (Session/SessionGone.v): after any further operations, no later consume writes a piece for a channel that was closed before an earlier consume. C02_replacement_closes_the_old_channel: the slow path of addEvent leaves the old channel closed with a uid below the replacement\'s. PARTIAL: the assembly of these statements into one sentence about one writer\'s events in the concatenation of all consume outputs is not a single theorem (the model has no per-byte writer attribution); it is checked on the implementation by the exactly-once/in-order oracle.',
    note=NOTE_COMMON + 'the stand-ins of harness/drv_session.cpp (atomic, mutex, shared_ptr with libstdc++ orders, fence); the session model keeps one source id per statement site; per-channel delivery is C01.', design='4/C02', technique='Coq proof (queue refinement lifted to sessions, drained-before-removal theorem, refutation witness by vm_compute) + differential correspondence incl. the stale-read schedule'),
  'C03': dict(
    text='Theorems C03_metadata_first (every consume writes pending clock syncs and all unconsumed sources before polling any channel; nothing inside a consume can register a source), C03_source_ids_distinct, C03_sources_once_per_output, C03_events_follow_their_sources + C03_sources_cover_the_ids (for every history and every schedule inside consume: after the metadata part a consume writes only writer descriptions and whole events whose source ids are below next_sid at its start, and the sources buffer - completely in the output by then - holds exactly one source per such id) (Coq, closed), instantiated with the lock_guard / write-order / store-after-registration facts read off Session.hpp and the macro header. The interleavings considered are those the mutex permits: lock-free writer actions anywhere inside consume. Two threads racing on one statement site are not in the model (one id per site) - observed only.',
